@@ -242,7 +242,10 @@ func (fr *Frame) applyContract(fc *FuncContract, site ssa.Instruction, obj *type
 		binds[n] = Binding{term: args[i], typ: tys[i]}
 	}
 	var pkg *types.Package
-	if obj != nil {
+	if fc.Pkg != "" {
+		pkg = vc.eng.pkgTypes(fc.Pkg)
+	}
+	if pkg == nil && obj != nil {
 		pkg = obj.Pkg()
 	}
 	if pkg == nil {
